@@ -44,6 +44,8 @@ def jobs(tier, ctx):
             add('F_INDEX', ['NUM', c])
         for c in INDEXED:
             add('F_INDEX', ['STR', c])
+    # (harness/C01/implode.c is kept but not run: CBMC 6.11 returns unconstrained values for x->item[i], i >= 1, on the
+    #  trailing item[1] arrays, so the element kinds of a multi-element array cannot be fixed; DESIGN Corrections 9)
     out.append(dict(name='error.msg_buffer', srcs=['@harness/C01/error_fmt.c'], stubs=['@world/world_base.c', '@world/libc_models.c', '@harness/C01/error_stubs.c'],
                     defs=['MODE_ERROR=1'], cuts=['error_handler', 'mudlib_error_handler', 'debug_message_with_location'], unwind=4, targets=['error'], timeout=200, mem_gb=4,
                     desc='real error() with vsnprintf reporting any length >= -1: msg[len-1], msg[len], msg[len+1] stay inside the 8 KiB buffer',
